@@ -20,6 +20,7 @@ def run(chk):
     from .c12 import r12d
     from .c15 import r15a
 
+    r17f(chk)
     r12d(chk, 'R17.d')
     r15a(chk, 'R17.e')
 
@@ -332,3 +333,77 @@ def _eval_edit_media(chk, rid, m):
                 bad.append(f'deleteMedium({old!r}) from {kinds}: {got}, prescribed {want}')
     chk.extra['media_edit_cases_evaluated'] = n
     chk.ob(rid, ML, 'MediaList.appendMedium', f"all {n} edit cases: nothing is added to a list that holds 'all'; a type already present moves to the end; appending 'all' clears the list; queries without a simple type never displace another; deleteMedium removes the first query of the (normalised) type and reports NotFoundErr otherwise (by evaluation, through the class's own __iter__/__delitem__)", not bad, f'{len(bad)} cases differ, e.g. ' + '; '.join(bad[:2]))
+
+
+def r17f(chk, rid='R17.f'):
+    chk.rule(rid, 'what the grammar accepted is what is stored, decided by evaluation: MediaQuery._setMediaText after the production parse (the parse result is supplied by the model: media type, "and", several feature expressions - two of them with the same feature name and different values - and a comment) commits exactly that sequence: every item, in order; item assignment on a MediaList (__setitem__, through the class\'s own index mapping) replaces exactly the addressed query for every index, negative ones included, and changes neither length nor neighbours')
+    from sa.absint import Evaluator, Obj, Raised, Record
+
+    m = chk.repo.mod(MQ)
+    fn = m.get('MediaQuery._setMediaText')
+
+    def it(t, v):
+        return Record(type=t, value=v, line=1, col=1)
+
+    parsed = [it('IDENT', 'screen'), it('IDENT', 'and'), it('CHAR', '('), it('IDENT', 'min-width'), it('CHAR', ':'), it('DIMENSION', '100px'), it('CHAR', ')'),
+              it('COMMENT', '/*c*/'), it('IDENT', 'AND'), it('CHAR', '('), it('IDENT', 'MIN-WIDTH'), it('CHAR', ':'), it('DIMENSION', '20em'), it('CHAR', ')'),
+              it('IDENT', 'and'), it('CHAR', '('), it('IDENT', 'color'), it('CHAR', ')'), it('IDENT', 'and'), it('CHAR', '('), it('IDENT', 'color'), it('CHAR', ':'), it('NUMBER', '8'), it('CHAR', ')')]
+
+    class SeqM(list):
+        def appendItem(self, item):
+            list.append(self, item)
+
+        def append(self, val, typ=None, line=None, col=None):
+            list.append(self, Record(type=typ, value=val, line=line, col=col))
+
+    committed = []
+    me = Obj(_checkReadonly=lambda: None, _partof=False, MEDIA_TYPES=['all', 'screen', 'tv'], _wellformed=None, mediaType=None, _mediaType=None)
+    me._setSeq = lambda sq: committed.append(list(sq))
+    me._tempSeq = lambda *a, **k: SeqM()
+    stub = lambda *a, **k: None  # noqa: E731
+    intr = {'ProdParser().parse': lambda *a, **k: (True, SeqM(parsed), {'media_type': it('IDENT', 'screen'), 'not simple': it('IDENT', 'and')}, []), 'Sequence': stub, 'Choice': stub, 'Prod': stub,
+            'PreDef': Record(char=stub, types=Record(IDENT='IDENT'), comment=stub), 'cssutils': Record(css=Record(value=Record(MediaQueryValueProd=stub))), 'normalize': lambda x: x.lower() if x else x}
+    res = Evaluator(fn, intrinsics=intr, model_types=(SeqM,), module=m, cls='MediaQuery').run(self=me, mediaText='...')
+    ok = not isinstance(res, Raised) and len(committed) == 1 and [(x.type, x.value) for x in committed[0]] == [(x.type, x.value) for x in parsed]
+    chk.ob(rid, MQ, 'MediaQuery._setMediaText', 'the parsed sequence is committed item by item, repeated feature names included', ok,
+           f'{res!r}; committed {[x.value for x in committed[0]] if committed else None}: a feature expression the source contained is gone after parsing' if not ok else '')
+    # item assignment
+    lm = chk.repo.mod(ML)
+    si = lm.get('MediaList.__setitem__')
+
+    class MQm(Record):
+        pass
+
+    class Seq2(list):
+        _readonly = False
+
+        def __setitem__(self, i, x):  # Seq.__setitem__ takes (val, typ, line, col)
+            list.__setitem__(self, i, Record(value=x[0], type=x[1], line=x[2], col=x[3]) if isinstance(x, tuple) else x)
+
+    bad = []
+    n = 0
+    for index in range(-4, 4):
+        sq = Seq2([Record(type='COMMENT', value='c'), Record(type='MediaQuery', value=MQm(mediaType='tv', wellformed=True, tag='tv')), Record(type='MediaQuery', value=MQm(mediaType='print', wellformed=True, tag='print')),
+                   Record(type='COMMENT', value='c2'), Record(type='MediaQuery', value=MQm(mediaType='tv', wellformed=True, tag='tv2'))])
+        me = Record(_seq=sq, _checkReadonly=lambda: None)
+        new = MQm(mediaType='tv', wellformed=True, tag='NEW')
+        res = Evaluator(si, intrinsics={'MediaQuery': MQm}, model_types=(Seq2,), module=lm, cls='MediaList').run(self=me, index=index, newMedium=new)
+        n += 1
+
+        def tag(x):
+            v = x[0] if isinstance(x, tuple) else x.value
+            return getattr(v, 'tag', 'comment')
+
+        tags = [tag(x) for x in sq]
+        base = ['comment', 'tv', 'print', 'comment', 'tv2']
+        qpos = [1, 2, 4]
+        if -3 <= index < 3:
+            want = list(base)
+            want[qpos[index]] = 'NEW'
+            ok = not isinstance(res, Raised) and tags == want
+        else:
+            ok = isinstance(res, Raised) and res.kind == 'IndexError' and tags == base
+            want = 'IndexError, list unchanged'
+        if not ok:
+            bad.append(f'ml[{index}] = tv: {res!r}, items {tags}; prescribed {want}')
+    chk.ob(rid, ML, 'MediaList.__setitem__', f'all {n} index values replace exactly the addressed query', not bad, ' | '.join(bad[:2]))
